@@ -14,5 +14,6 @@ import (
 	_ "verifharness/internal/props/c12"
 	_ "verifharness/internal/props/c13"
 	_ "verifharness/internal/props/c18"
+	_ "verifharness/internal/props/c19"
 	_ "verifharness/internal/props/c20"
 )
